@@ -4,11 +4,13 @@ functions that is not of the expected shape raises SiteError (the check records 
 
 Extracted:
   _io.save_npz      the `nodes` member table (member name -> attribute of `matrix`), the chain of
-                    `type(matrix) is K` / `isinstance(matrix, K)` tests with the members each adds,
+                    `type(matrix) is K` / `isinstance(matrix, K)` tests with the members each adds (and whether a
+                    member is guarded by `if matrix.<attr> is not None`),
                     the two writer calls (np.savez_compressed / np.savez with **nodes) and their
                     allow_pickle argument
-  _io.load_npz      np.load(...) arguments (allow_pickle), the sequence of try-blocks: members read (in
-                    order, with the conversion applied), the constructor called, which member feeds which
+  _io.load_npz      np.load(...) arguments (allow_pickle), the `fp.zip.testzip()` guard, the sequence of try-blocks:
+                    members read (in order, with the conversion applied, and whether the read is the optional form
+                    `fp[m] if m in fp else None`), the constructor called, which member feeds which
                     constructor parameter, constant flags (sorted=, has_duplicates=), the exception caught
                     and the handler's action (pass | raise E)
   COO / GCXS / _Compressed2d / CSR / CSC / SparseArray
@@ -115,11 +117,26 @@ def extract_save(tree):
             raise SiteError(f"save_npz: unsupported class test {ast.unparse(t)}")
         need(test[1] in KLASSES, f"save_npz: test on unmodelled class {test[1]}")
         mem = []
+
+        def plain_assign(st):
+            need(isinstance(st, ast.Assign) and len(st.targets) == 1 and isinstance(st.targets[0], ast.Subscript)
+                 and is_name(st.targets[0].value, "nodes") and is_attr(st.value, "matrix"),
+                 f"save_npz: unsupported statement in class branch: {ast.unparse(st)}")
+            return sconst(st.targets[0].slice), st.value.attr
         for s in node.body:
-            need(isinstance(s, ast.Assign) and len(s.targets) == 1 and isinstance(s.targets[0], ast.Subscript)
-                 and is_name(s.targets[0].value, "nodes") and is_attr(s.value, "matrix"),
-                 f"save_npz: unsupported statement in class branch: {ast.unparse(s)}")
-            mem.append((sconst(s.targets[0].slice), s.value.attr))
+            if isinstance(s, ast.If):
+                # if matrix.a is not None: nodes["m"] = matrix.a
+                t2 = s.test
+                need(isinstance(t2, ast.Compare) and len(t2.ops) == 1 and isinstance(t2.ops[0], ast.IsNot)
+                     and is_attr(t2.left, "matrix") and isinstance(t2.comparators[0], ast.Constant)
+                     and t2.comparators[0].value is None and not s.orelse and len(s.body) == 1,
+                     f"save_npz: unsupported guard in class branch: {ast.unparse(s)[:80]}")
+                m, a = plain_assign(s.body[0])
+                need(a == t2.left.attr, "save_npz: the guard tests another attribute than the one it writes")
+                mem.append((m, a, True))
+            else:
+                m, a = plain_assign(s)
+                mem.append((m, a, False))
         branches.append((test, mem))
         if not node.orelse:
             node = None
@@ -155,19 +172,42 @@ EXPECTED_CONV = {"shape": "tuple", "fill_value": "item"}
 
 
 def read_expr(e):
-    """fp["m"] | tuple(fp["m"]) | fp["m"][()]  ->  (member, conversion)"""
+    """fp["m"] | tuple(fp["m"]) | fp["m"][()] | fp["m"] if "m" in fp else None  ->  (member, conversion, optional)"""
     def plain(x):
         if isinstance(x, ast.Subscript) and is_name(x.value, "fp") and isinstance(x.slice, ast.Constant):
             return sconst(x.slice)
         return None
     m = plain(e)
     if m is not None:
-        return m, "plain"
+        return m, "plain", False
     if isinstance(e, ast.Call) and is_name(e.func, "tuple") and len(e.args) == 1 and not e.keywords and plain(e.args[0]):
-        return plain(e.args[0]), "tuple"
+        return plain(e.args[0]), "tuple", False
     if (isinstance(e, ast.Subscript) and isinstance(e.slice, ast.Tuple) and not e.slice.elts and plain(e.value)):
-        return plain(e.value), "item"
+        return plain(e.value), "item", False
+    if isinstance(e, ast.IfExp) and plain(e.body) is not None:
+        t = e.test
+        ok = (isinstance(t, ast.Compare) and len(t.ops) == 1 and isinstance(t.ops[0], ast.In)
+              and isinstance(t.left, ast.Constant) and t.left.value == plain(e.body) and is_name(t.comparators[0], "fp")
+              and isinstance(e.orelse, ast.Constant) and e.orelse.value is None)
+        if ok:
+            return plain(e.body), "plain", True
     raise SiteError(f"load_npz: unsupported member read {ast.unparse(e)}")
+
+
+def testzip_guard(st):
+    """if fp.zip.testzip() is not None: raise E(...)  ->  E"""
+    if not isinstance(st, ast.If):
+        return None
+    t = st.test
+    ok = (isinstance(t, ast.Compare) and len(t.ops) == 1 and isinstance(t.ops[0], ast.IsNot)
+          and isinstance(t.comparators[0], ast.Constant) and t.comparators[0].value is None
+          and isinstance(t.left, ast.Call) and not t.left.args and not t.left.keywords
+          and isinstance(t.left.func, ast.Attribute) and t.left.func.attr == "testzip"
+          and is_attr(t.left.func.value, "fp", "zip"))
+    need(ok, f"load_npz: unsupported if-statement {ast.unparse(t)}")
+    need(not st.orelse and len(st.body) == 1 and isinstance(st.body[0], ast.Raise) and isinstance(st.body[0].exc, ast.Call)
+         and isinstance(st.body[0].exc.func, ast.Name), "load_npz: the testzip guard does not raise an exception class")
+    return st.body[0].exc.func.id
 
 
 def extract_load(tree):
@@ -185,7 +225,12 @@ def extract_load(tree):
              f"load_npz: unsupported np.load keyword {k.arg}")
         allow = k.value.value
     attempts = []
-    for t in b[0].body:
+    stmts = list(b[0].body)
+    testzip = None
+    if stmts and isinstance(stmts[0], ast.If):
+        testzip = testzip_guard(stmts[0])
+        stmts = stmts[1:]
+    for t in stmts:
         need(isinstance(t, ast.Try) and not t.orelse and not t.finalbody and len(t.handlers) == 1,
              f"load_npz: unexpected statement {type(t).__name__} in the with-block")
         reads, var2mem = [], {}
@@ -193,9 +238,9 @@ def extract_load(tree):
         for s in t.body[:-1]:
             need(isinstance(s, ast.Assign) and len(s.targets) == 1 and isinstance(s.targets[0], ast.Name),
                  f"load_npz: unsupported statement {ast.unparse(s)}")
-            m, conv = read_expr(s.value)
+            m, conv, optional = read_expr(s.value)
             need(conv == EXPECTED_CONV.get(m, "plain"), f"load_npz: member {m} is read with conversion {conv}")
-            reads.append(m)
+            reads.append((m, optional))
             var2mem[s.targets[0].id] = m
         call = t.body[-1].value
         need(isinstance(call, ast.Call) and isinstance(call.func, ast.Name) and call.func.id in KLASSES,
@@ -230,7 +275,7 @@ def extract_load(tree):
         attempts.append({"class": call.func.id, "reads": reads, "args": args, "flags": flags,
                          "caught": caught, "action": action})
     need(attempts, "load_npz: no attempts")
-    return {"allow_pickle": allow, "attempts": attempts}
+    return {"allow_pickle": allow, "attempts": attempts, "testzip": testzip}
 
 
 # --------------------------------------------------------------------------------- classes, pickle, copy
@@ -467,18 +512,23 @@ def to_coq(facts, digest):
     o.append("")
     o.append("(* save_npz: member name -> attribute of `matrix`, written for every class *)")
     o.append(f"Definition save_base : list (string * string) := {cpairs(sv['base'])}.")
-    o.append("(* save_npz: the if/elif chain; the first test that holds adds its members *)")
-    o.append("Definition save_branches : list (cls_test * list (string * string)) :=")
-    o.append("  " + clist(sv["branches"], lambda b: f"({b[0][0]} K{b[0][1]}, {cpairs(b[1])})") + ".")
+    o.append("(* save_npz: the if/elif chain; the first test that holds adds its members.  The boolean of a member says")
+    o.append("   that it is written only `if matrix.<attr> is not None` *)")
+    o.append("Definition save_branches : list (cls_test * list (string * string * bool)) :=")
+    o.append("  " + clist(sv["branches"], lambda b: f"({b[0][0]} K{b[0][1]}, "
+             + clist(b[1], lambda t: f"({cstr(t[0])}, {cstr(t[1])}, {cbool(t[2])})") + ")") + ".")
     o.append("(* allow_pickle of np.savez / np.savez_compressed (numpy's default when not passed) *)")
     o.append(f"Definition save_allow_pickle : bool := {cbool(sv['allow_pickle'])}.")
     o.append("")
     o.append("(* load_npz *)")
     o.append(f"Definition load_allow_pickle : bool := {cbool(ld['allow_pickle'])}.")
+    o.append("(* `if fp.zip.testzip() is not None: raise E(...)` before any member is read: Some E, else None *)")
+    o.append("Definition load_testzip : option string := "
+             + ("None" if ld["testzip"] is None else f"Some {cstr(ld['testzip'])}") + ".")
     o.append("Inductive on_caught := Pass | RaiseExc (e : string).")
     o.append("Record attempt := mkAttempt {")
     o.append("  at_class : klass;                       (* constructor called *)")
-    o.append("  at_reads : list string;                 (* members read, in order *)")
+    o.append("  at_reads : list (string * bool);        (* members read, in order; true: `fp[m] if m in fp else None` *)")
     o.append("  at_args : list (string * string);       (* constructor parameter -> member *)")
     o.append("  at_flags : list (string * bool);        (* constant boolean keyword arguments *)")
     o.append("  at_caught : string;                     (* exception class of the handler *)")
@@ -487,7 +537,7 @@ def to_coq(facts, digest):
     items = []
     for a in ld["attempts"]:
         act = "Pass" if a["action"][0] == "Pass" else f"RaiseExc {cstr(a['action'][1])}"
-        items.append(f"mkAttempt K{a['class']} {clist(a['reads'], cstr)}\n      {cpairs(a['args'])}\n      "
+        items.append(f"mkAttempt K{a['class']} {clist(a['reads'], lambda r: f"({cstr(r[0])}, {cbool(r[1])})")}\n      {cpairs(a['args'])}\n      "
                      + clist(a["flags"], lambda p: f"({cstr(p[0])}, {cbool(p[1])})") + f" {cstr(a['caught'])} ({act})")
     o.append("  [ " + ";\n    ".join(items) + " ].")
     o.append("")
